@@ -159,9 +159,15 @@ func genRecord(r *spec.Rand, t byte) *rc.Packet {
 		if r.Bool() {
 			p.HasUser = true
 			p.User = genPrintable(r, 1+edge(65534))
+			if r.Intn(12) == 0 {
+				p.User = nil // user name flag set through SetUsernameFlag, zero-length user name
+			}
 			if r.Bool() {
 				p.HasPass = true
 				p.Pass = r.Bytes(1 + edge(65534))
+				if r.Intn(12) == 0 {
+					p.Pass = nil
+				}
 			}
 		}
 	case rc.CONNACK:
